@@ -155,6 +155,17 @@ func kgRun(c *harness.C, backend string, t int, variant string, r *explore.Recor
 					}
 				}
 			}
+			if variant == "one-dup" {
+				// every message is delivered a second time, right after the phase it belongs to
+				var d []struct {
+					from uint16
+					m    captured
+				}
+				for i := 0; i+1 < len(order); i += 2 {
+					d = append(d, order[i], order[i+1], order[i+1], order[i])
+				}
+				order = d
+			}
 			if variant == "one-reveal-early" && len(order) >= 6 {
 				// party 2's commitment and reveal right after its share
 				order = []struct {
@@ -376,12 +387,18 @@ func gen(c *harness.C) []harness.Case {
 	}
 	for _, be := range []string{"bls", "ps"} {
 		for _, t := range []int{3, 2} {
-			for _, v := range []string{"after-init", "early", "dup", "one-in-phase", "one-reveal-early"} {
+			for _, v := range []string{"after-init", "early", "dup", "one-in-phase", "one-reveal-early", "one-dup"} {
 				be, t, v := be, t, v
 				name := fmt.Sprintf("keygen/%s/t%d/%s", be, t, v)
 				bd := b3
 				if strings.HasPrefix(v, "one-") {
 					bd = b2
+					if be == "ps" && !c.Thorough() {
+						bd = b2 - 1 // PS executions are several times more expensive
+					}
+				}
+				if v == "one-dup" && t == 2 && !c.Thorough() {
+					continue
 				}
 				fams = append(fams, fam{name: name, bound: bd,
 					run: func(c *harness.C, r *explore.Recorder) ([]string, bool, []string) {
